@@ -128,13 +128,13 @@ func build(dir, flavour string) string {
 }
 
 type scnSpec struct {
-	Name    string
-	Params  string
-	Flavour string  // plain | race | unsafe
-	Share   float64 // share of the budget
-	Count   uint64  // fixed number of runs (enumerations); 0 = budget driven
-	CountKey string // ask the simulation binary for the size of the enumerated space (TestCounts)
-	MemLimitKB int  // ulimit -v for the worker processes (0 = none)
+	Name       string
+	Params     string
+	Flavour    string  // plain | race | unsafe
+	Share      float64 // share of the budget
+	Count      uint64  // fixed number of runs (enumerations); 0 = budget driven
+	CountKey   string  // ask the simulation binary for the size of the enumerated space (TestCounts)
+	MemLimitKB int     // ulimit -v for the worker processes (0 = none)
 }
 
 type checkSpec struct {
@@ -834,23 +834,23 @@ func cmdCheck(prop, tier string) int {
 			"simkafka models broker behaviour faithfully for the APIs exercised; refcodec follows the Kafka protocol definition",
 		}, spec.Assume...),
 		"coverage": map[string]any{
-			"evaluations":           total.evals,
-			"distinct_nontrivial":   len(total.nontrivial),
-			"rule":                  spec.Rule + " A run is non-trivial when it completed its workload (or at least one operation) and at least one fault fired, a pre-emption happened or two goroutines were runnable at once; distinct = distinct schedule signatures (hash of the sequence of (event kind, scheduling site / network event) of the run).",
-			"samples":               samples,
-			"exhaustive":            exhaustive,
+			"evaluations":            total.evals,
+			"distinct_nontrivial":    len(total.nontrivial),
+			"rule":                   spec.Rule + " A run is non-trivial when it completed its workload (or at least one operation) and at least one fault fired, a pre-emption happened or two goroutines were runnable at once; distinct = distinct schedule signatures (hash of the sequence of (event kind, scheduling site / network event) of the run).",
+			"samples":                samples,
+			"exhaustive":             exhaustive,
 			"distinct_trace_digests": len(total.digests),
-			"runs_per_hour":         int(float64(total.evals) / wall * 3600),
-			"simulated_seconds":     total.simMs / 1000,
-			"driver_steps":          total.steps,
-			"cpu_seconds_in_runs":   runWall,
-			"faults_fired":          faults,
-			"probes":                probes,
-			"run_endings":           total.ended,
-			"preemptions_per_run":   total.preHist,
-			"per_scenario":          perScn,
-			"workers":               workerCount(),
-			"real_vs_stub":          stubTable,
+			"runs_per_hour":          int(float64(total.evals) / wall * 3600),
+			"simulated_seconds":      total.simMs / 1000,
+			"driver_steps":           total.steps,
+			"cpu_seconds_in_runs":    runWall,
+			"faults_fired":           faults,
+			"probes":                 probes,
+			"run_endings":            total.ended,
+			"preemptions_per_run":    total.preHist,
+			"per_scenario":           perScn,
+			"workers":                workerCount(),
+			"real_vs_stub":           stubTable,
 			"goroutine_leak_reports": total.leaks,
 		},
 	}
